@@ -1,6 +1,8 @@
 /-
   C05 — Variable-length tag contents have exactly the extent the tag size implies.
 -/
+import Mb2.Props.FnsEfi
+import Mb2.Props.FnsTblEfi
 import Mb2.Props.FnsTblTags
 import Mb2.Props.FnsGetters
 import Mb2.Props.FnsElfIter
